@@ -6,12 +6,15 @@ not change which lines are reported:
   linedir  a `//line <same file>:<next line>` directive after the package clause: positions keep file and line but
            lose the column wherever the //line-adjusted position is used
   crlf     CR LF line endings
+  parens   redundant parentheses around case expressions, conditions, switch tags, returned values, right-hand sides,
+           assignment targets, call arguments and the operands of comparisons, && || ! * <- (bin/harness parens: bytes are
+           inserted on the lines the expressions are on, no line moves); skipped for a module that no longer compiles
 """
 import os
 import re
 import shutil
 
-TEXTURES = ("blank", "percent", "linedir", "crlf")
+TEXTURES = ("blank", "percent", "linedir", "crlf", "parens")
 
 
 def _transform(path, kind):
@@ -44,6 +47,16 @@ def make(moddir, kind, scratch):
     dst = os.path.join(scratch, "tx_" + kind)
     shutil.rmtree(dst, ignore_errors=True)
     shutil.copytree(moddir, dst)
+    if kind == "parens":
+        from . import common
+        rc, out, err = common.harness(["parens", "-dir", dst])
+        env = dict(common.GOENV)
+        rc2, out2, err2 = common.sh2(["go", "build", "./..."], cwd=dst, env=env, timeout=300)
+        if rc != 0 or rc2 != 0:
+            # the rewriting is syntactic: where it produces something the compiler rejects the texture does not apply
+            shutil.rmtree(dst, ignore_errors=True)
+            shutil.copytree(moddir, dst)
+        return dst
     for root, _, files in os.walk(dst):
         for f in sorted(files):
             if f.endswith(".go"):
